@@ -48,6 +48,26 @@ def check_no_path_rewrite(run: Run) -> None:
         for fi in m.functions.values():
             for c in walk_no_nested(fi.node):
                 if isinstance(c, ast.Call) and isinstance(c.func, ast.Attribute) and c.func.attr in PATH_REWRITERS:
+                    # only a rewritten path that is then ACCESSED matters (a rewritten spelling inside a message does not)
+                    par = getattr(c, "_parent", None)
+                    accessed = False
+                    FS = {"open", "read_text", "read_bytes", "write_text", "write_bytes", "exists", "is_file", "is_dir", "stat", "lstat", "unlink", "mkdir", "iterdir", "glob", "rglob", "resolve", "replace", "rename", "touch", "is_symlink"}
+                    if isinstance(par, ast.Attribute) and par.attr in FS:
+                        accessed = True
+                    if isinstance(par, ast.Call) and c in par.args and ast.unparse(par.func) in ("open", "Path", "os.open", "os.replace", "os.stat", "os.path.exists"):
+                        accessed = True
+                    if isinstance(par, ast.Assign) and len(par.targets) == 1 and isinstance(par.targets[0], ast.Name):
+                        v = par.targets[0].id
+                        for u in walk_no_nested(fi.node):
+                            if isinstance(u, ast.Call) and isinstance(u.func, ast.Attribute) and isinstance(u.func.value, ast.Name) and u.func.value.id == v and u.func.attr in FS:
+                                accessed = True
+                            if isinstance(u, ast.Call) and any(isinstance(a, ast.Name) and a.id == v for a in u.args) and (ast.unparse(u.func) in ("open", "Path", "os.open", "os.replace", "os.stat") or (isinstance(u.func, ast.Attribute) and u.func.attr in ("_validate_path", "read_text"))):
+                                accessed = True
+                            if isinstance(u, ast.Return) and u.value is not None and any(isinstance(x, ast.Name) and x.id == v for x in ast.walk(u.value)):
+                                accessed = True
+                    if not accessed:
+                        run.instance("R19.8", m.loc(c), f"{fi.qualname}: `{norm(c)[:60]}` is not used for a file access", nontrivial=False)
+                        continue
                     n += 1
                     run.instance("R19.8", m.loc(c), f"{fi.qualname}: `{norm(c)[:60]}`", ok=False)
                     run.violation("R19.8", m, fi.qualname, f"{c.func.attr}() on a path", f"`{norm(c)[:70]}` rewrites a path after (or instead of) validation: the validator sees the spelling the caller sent (where `~` is an ordinary directory name), the file system sees the rewritten one, so a symlink or a disallowed suffix behind the rewrite is never checked")
